@@ -81,7 +81,7 @@ pcgstrf_bmod2D(
     complex       *TriTmp, *MatvecTmp;
     register int_t ldaTmp;
     register int_t r_ind, r_hi;
-    static   int_t first = 1, maxsuper, rowblk;
+    register int_t maxsuper = sp_ienv(3), rowblk = sp_ienv(4);
     int_t          *lsub, *xlsub_end;
     complex       *lusup;
     int_t          *xlusup;
@@ -92,11 +92,6 @@ pcgstrf_bmod2D(
     double f_time;
 #endif    
     
-    if ( first ) {
-	maxsuper = sp_ienv(3);
-	rowblk   = sp_ienv(4);
-	first = 0;
-    }
     ldaTmp = maxsuper + rowblk;
 
     lsub      = Glu->lsub;
